@@ -60,7 +60,7 @@ ASSUMPTIONS = [
 MUST_REACH = {"filter_evaluations": 20000, "filters_compiled": 1500, "true_verdicts": 2000, "false_verdicts": 2000,
               "type_mismatch_leaves_evaluated": 300, "subfield_leaves_evaluated": 100, "view_ops": 1500, "view_checks": 1500,
               "window_overflows": 100, "refilters_with_aged_out_visible": 20, "export_import_checked": 100,
-              "freeze_thaw_checked": 100, "entry_kinds_covered": 6}
+              "freeze_thaw_checked": 100, "entry_kinds_covered": 6, "directed_equality_pairs": 300}
 
 PRIM = (int, float, bytes, str, type(None), tuple, TupleCoord)
 OPS = ["==", "!=", "^=", "$=", "~=", ">", ">=", "<", "<=", "&"]
@@ -109,7 +109,9 @@ def ref_cmp(op, val, expected):
         if op == "==":
             return bool(val == expected)
         if op == "!=":
-            return bool(val != expected)
+            # "differs" is the negation of "equals" (asked of equality only, so that a value type whose two operators
+            # disagree with each other shows)
+            return not bool(val == expected)
         if op == "^=":
             return val is not None and bool(val.startswith(expected))
         if op == "$=":
@@ -437,6 +439,15 @@ class World:
         elif flavour in ("template", "lazy", "frozen"):
             tmpl = rng.choice(self.templates)
             spec = gen_msg.limit_for_zerocode(rng, tmpl, {})
+            if flavour == "lazy":
+                # readable text that arrives without its terminator (senders do leave it off): such a field is bytes that
+                # also compare like their text
+                for (bname, entries) in spec["blocks"]:
+                    for ent in entries or ():
+                        for var in tmpl.get_block(bname).variables:
+                            if var.type.name == "MVT_VARIABLE" and not any(h in var.name for h in gen_msg._BINARY_HINTS) \
+                                    and rng.random() < 0.4:
+                                ent[var.name] = ["b", rng.choice([b"hello", b"{", b"abc def", b"x", b"Hello World"])]
             msg = gen_msg.build_message(spec)
             if flavour == "lazy":
                 if msg.packet_id is None:
@@ -555,6 +566,13 @@ def near_values(rng, v):
         out += [v, v[:2], v[-2:], v[1:3], v + "x", v.upper()]
     elif isinstance(v, bytes):
         out += [v, v[:1], v[-1:], v[1:2], v + b"x"]
+        # a text-looking field that arrived without its terminator is bytes that also compare like their text
+        try:
+            t = v.rstrip(b"\x00").decode("utf8")
+            if t and all(ch.isprintable() and ch not in "\"\\'" for ch in t):
+                out += [t, t, t[:1], t + "x"]
+        except UnicodeDecodeError:
+            pass
     elif isinstance(v, UUID):
         s = str(v)
         out += [s, s[:8], s[-4:], s.upper()]
@@ -736,6 +754,30 @@ def semantics(ctx, world, rounds):
             for _ in range(ctx.pick(10, 16)):
                 leaf = gen_leaf(rng, world, model)
                 work.append((leaf if rng.random() < 0.7 else ("not", leaf), [(entry, model)]))
+        # directed: equality and its negation against the equal literal of the *other* spelling a value type accepts - a
+        # vector against the tuple, unterminated text against the string as well as the bytes
+        for entry, model in pool:
+            for (block, idx, var, value, sub) in model.fields:
+                if not (ident_ok(model.name) and ident_ok(block) and ident_ok(var)):
+                    continue
+                lits = []
+                if isinstance(value, TupleCoord):
+                    # (the filter grammar has no negative number literals)
+                    lits = [tuple(value)] if all(isinstance(x, (int, float)) and x == x and 0 <= x < 1e15 and "e" not in repr(x)
+                                                 for x in value) else []   # ... nor exponent notation
+                elif isinstance(value, bytes):
+                    try:
+                        t = bytes(value).rstrip(b"\x00").decode("utf8")
+                    except UnicodeDecodeError:
+                        continue
+                    if t and all(ch.isprintable() and ch not in "\"\\'" for ch in t):
+                        lits = [t, bytes(value)]
+                for lit in lits:
+                    if not literal_ok(lit):
+                        continue
+                    for op in ("==", "!="):
+                        work.append((("leaf", (model.name, block, var), op, ("lit", lit, lit_text(rng, lit))), [(entry, model)]))
+                        ctx.count("directed_equality_pairs")
         for fi in range(ctx.pick(25, 40)):
             work.append((gen_tree(rng, world, models, rng.choice([0, 1, 2, 3, 4])), pool))
         for tree, targets in work:
